@@ -1021,6 +1021,7 @@ package consensus
 //@   at call:MidState.ApplyV2Transaction#1 assert @applies-each-v2-transaction $arg1 == txn
 //@   at call:MidState.createImmatureSiacoinElement#1 assert @miner-payout $arg1 == bid.MinerOutputID(i) && $arg2 == sco
 //@   at call:MidState.createImmatureSiacoinElement#2 assert @foundation-subsidy $arg1 == bid.FoundationOutputID() && $arg2 == ms.base.FoundationSubsidy().0
+//@   at call:MidState.resolveFileContractElement#1 assert @only-if-not-resolved-in-block !ms.isSpent(fce.ID)
 //@   at call:MidState.resolveFileContractElement#1 assert @expiry-resolves-missed $arg1.ID == fce.ID && $arg1.FileContract == fce.FileContract && !$arg2
 //@   at call:MidState.createImmatureSiacoinElement#3 assert @missed-payout $arg1 == fce.ID.MissedOutputID(i) && $arg2 == sco && $arg2 == fce.FileContract.MissedProofOutputs[i]
 // The v1 counterpart: parents are looked up in the MidState / supplement by the ID the input names.
